@@ -1,7 +1,9 @@
 """
 eng_tables — engine for the table-based properties: C13 (write capabilities), C16 (provided
-Collect impls), C19 static half (conjuring), and the structural halves of C03 (call graph) and C20
-(no shared state).  Tie T2 of DESIGN.md: translator + table theorems, cross-validated by compile
+Collect impls), C19 static half (conjuring), the structural halves of C03 (call graph) and C20
+(no shared state), and the brand-flow half of C12 (no function that safe code can call lets the
+caller choose a brand; table BrandFlow, theorems Props/C12s, escape probes probes/gen_brandflow.py).
+Tie T2 of DESIGN.md: translator + table theorems, cross-validated by compile
 probes.
 
     run(prop, tier, seed) -> dict          (contract: see lib/vstatic.py)
@@ -11,12 +13,12 @@ What a run does, against the CURRENT working tree of the crate:
  1. builds /verif/extract (cargo, offline); macro-expands the crate (`cargo +nightly rustc
     --all-features -- -Zunpretty=expanded`, target dir under work/, nothing is written to /repo);
     runs the translator: regenerates lean/GcArena/Generated/{DerefWriteTable,CollectTable,SigTable,
-    CallGraph}.lean and work/tables/tables.json (the same facts, for the probe generator);
+    CallGraph,BrandFlow}.lean and work/tables/tables.json (the same facts, for the probe generator);
  2. compiles the import-free model files and the regenerated tables with `lean -o` into
     work/tables/lean-out (NOT into lean/.lake — `lake build GcArena.Props.<prop>` happens afterwards
     in ./check) and evaluates the model's own `violations` functions there, so that a `decide` that
     is about to fail is explained by naming the table entries (each becomes a problem with a key);
- 3. C13 / C19: builds the crate as an rlib into work/probe-target (never /repo/target), generates
+ 3. C13 / C19 / C12: builds the crate as an rlib into work/probe-target (never /repo/target), generates
     the probe corpus from the tables (probes/gen_tables.py) and lets rustc decide each probe, 16 in
     parallel; accepted probes that carry a scenario are linked and run (black parent / white child,
     full cycle, destructor flag);
@@ -55,7 +57,7 @@ PROBES = os.path.join(ROOT, "probes")
 ENV = dict(os.environ, CARGO_NET_OFFLINE="true")
 NCPU = min(16, os.cpu_count() or 4)
 
-PROPS = ("C03", "C13", "C16", "C19", "C20")
+PROPS = ("C03", "C12", "C13", "C16", "C19", "C20")
 KNOWN_KEYS = {
     "proj: <T: ?Sized> DerefWrite for &T": "derefwrite-shared-ref",
 }
@@ -89,11 +91,11 @@ def _slug(s, n=60):
     return t[:n].strip("-") or "x"
 
 
-def _load_gen():
-    name = "gen_tables_probes"
+def _load_gen(file="gen_tables.py"):
+    name = file[:-3] + "_probes"
     if name in sys.modules:
         return sys.modules[name]
-    spec = importlib.util.spec_from_file_location(name, os.path.join(PROBES, "gen_tables.py"))
+    spec = importlib.util.spec_from_file_location(name, os.path.join(PROBES, file))
     mod = importlib.util.module_from_spec(spec)
     sys.modules[name] = mod
     spec.loader.exec_module(mod)
@@ -151,10 +153,12 @@ MODEL_OF = {
     "CollectTable": ["Model/CollectTy"],
     "SigTable": ["Model/Conjure"],
     "CallGraph": ["Model/CallGraphM"],
+    "BrandFlow": ["Model/BrandFlow"],
 }
-PROP_TABLE = {"C13": "DerefWriteTable", "C16": "CollectTable", "C19": "SigTable", "C03": "CallGraph", "C20": "CallGraph"}
+PROP_TABLE = {"C12": "BrandFlow", "C13": "DerefWriteTable", "C16": "CollectTable", "C19": "SigTable", "C03": "CallGraph", "C20": "CallGraph"}
 PROP_EXTRA = {"C03": ["Proofs/CallGraphDefs"], "C20": ["Proofs/CallGraphDefs"]}
 PROP_ELAB = {
+    "C12": ["Proofs/BrandFlowLemmas", "Props/C12s"],
     "C13": ["Proofs/WriteCapLemmas", "Props/C13"],
     "C16": ["Proofs/CollectLemmas", "Props/C16"],
     "C19": ["Props/C19s"],
@@ -163,6 +167,12 @@ PROP_ELAB = {
 }
 
 EVAL = {
+    "C12": '''import GcArena.Generated.BrandFlow
+open GcArena.BrandFlow GcArena.Generated
+#eval show IO Unit from do
+  for s in brandFlow.violations do IO.println ("VIOL " ++ s)
+  IO.println s!"INFO ok={brandFlow.ok} sigs={brandFlow.sigs.length} callable={(brandFlow.sigs.filter Sig.callable).length} macroReachable={(brandFlow.sigs.filter (·.macroReachable)).length} introducing={(brandFlow.sigs.filter (fun s => !s.introduces.isEmpty)).length} macroCalls={brandFlow.macroCalls.length}"
+''',
     "C13": '''import GcArena.Generated.DerefWriteTable
 open GcArena.WriteCap GcArena.Generated
 #eval show IO Unit from do
@@ -367,6 +377,47 @@ def judge_probes(prop, probes, results, violating):
     return by_entry, corr, rows
 
 
+LIFETIME_ERR = re.compile(r"lifetime may not live long enough|borrowed data escapes|does not live long enough|E0521|E0597|E0716|E0310|"
+                          r"lifetime mismatch|E0308.*lifetime|not general enough|cannot be named|escapes the closure body|E0499|E0502|E0505|E0506")
+
+
+def judge_c12(probes, results, violating):
+    """C12 brand-flow probes: every attack / misuse program must be rejected *with a lifetime error*; an
+    accepted one is a failing input whatever it prints when run (the program is the replay); the
+    legitimate twin must compile and print RESULT safe."""
+    by_entry, corr, rows = {}, [], []
+    for p in probes:
+        r = results[p["name"]]
+        entry_bad = p["entry"] in violating
+        observed = "accept" if r["accepted"] else "reject"
+        predict = "accept" if p["role"] == "use" else ("accept (some shape)" if (p["role"] == "attack" and entry_bad) else "reject")
+        rows.append(dict(probe=p["name"], entry=p["entry"], role=p["role"], predicted=predict, rustc=observed, ran=r["ran"],
+                         outcome=(r["run_out"].splitlines() or [""])[0][:200], error=(r["errors"] or [""])[0][:200]))
+        if p["role"] in ("attack", "misuse"):
+            if r["accepted"]:
+                by_entry.setdefault(p["entry"], []).append((p, r))
+                if not entry_bad:
+                    corr.append(dict(probe=p, result=r, failing=True,
+                                     text=f"probe {p['name']}: a brand escape through `{p['entry']}` is ACCEPTED by rustc although the BrandFlow table accepts every entry"
+                                          + (f"; run: {r['run_out'][:160]}" if r["ran"] else "")))
+            elif p.get("unsafe_gate") and any("E0133" in e for e in r["errors"]):
+                pass  # rejected because the function is unsafe: the exemption the table relies on
+            elif not any(LIFETIME_ERR.search(e) for e in r["errors"]):
+                corr.append(dict(probe=p, result=r, failing=False,
+                                 text=f"probe {p['name']} is rejected, but not with a lifetime error (rotten probe?): {(r['errors'] or ['?'])[0][:200]}"))
+        else:
+            if not r["accepted"]:
+                corr.append(dict(probe=p, result=r, failing=False,
+                                 text=f"probe {p['name']}: the legitimate twin for `{p['entry']}` does not compile: {(r['errors'] or ['?'])[0][:200]}"))
+            elif not r["ran"] or r["run_rc"] != 0 or "RESULT safe" not in r["run_out"]:
+                corr.append(dict(probe=p, result=r, failing=False,
+                                 text=f"probe {p['name']}: the legitimate twin for `{p['entry']}` does not run cleanly: rc={r['run_rc']} {r['run_out'][:160]}"))
+    # prefer the complete scenario, then programs that demonstrate the consequence when run
+    for v in by_entry.values():
+        v.sort(key=lambda pr: (not pr[0].get("demo"), not _unsafe_run(pr[1])))
+    return by_entry, corr, rows
+
+
 # --------------------------------------------------------------------------------------------
 # problems
 # --------------------------------------------------------------------------------------------
@@ -377,12 +428,14 @@ def _key_for(prop, viol, demos):
     return f"table-{_slug(viol, 70)}"
 
 
-THEOREM = {"C13": "GcArena.C13.table_ok / cells_static", "C16": "GcArena.C16.table_complete", "C19": "GcArena.C19s.no_conjure",
+THEOREM = {"C12": "GcArena.C12s.table_ok", "C13": "GcArena.C13.table_ok / cells_static", "C16": "GcArena.C16.table_complete", "C19": "GcArena.C19s.no_conjure",
            "C03": "GcArena.C03s.callgraph / collection_needs_exclusive_arena / names_present",
            "C20": "GcArena.C20s.statics / expanded_statics_are_tracing_callsites / fresh_state"}
 
 
 def _theorem_for(prop, v):
+    if prop == "C12":
+        return "GcArena.C12s.table_ok"
     if prop == "C13":
         return "GcArena.C13.cells_static" if v.startswith("cell:") else "GcArena.C13.table_ok"
     if prop == "C16":
@@ -406,7 +459,7 @@ def _theorem_for(prop, v):
 
 def _is_tie_only(v):
     """The extraction / certificate broke, no concrete offending entry is exhibited."""
-    return v.startswith(("unclassified:", "names:", "certificate:", "graph:", "fresh-roots:", "marked-arena:"))
+    return v.startswith(("unclassified:", "names:", "certificate:", "graph:", "fresh-roots:", "marked-arena:", "macro-call:", "brand-type:"))
 
 
 def _explain_collect(entry):
@@ -542,6 +595,11 @@ def run(prop, tier, seed):
     elif prop == "C19":
         entries = len(tables["sig"]["sigs"])
         res["summary"]["signatures_scanned"] = tables["sig"]["scanned"]
+    elif prop == "C12":
+        entries = len(tables["brandflow"]["entries"])
+        res["summary"]["signatures_scanned"] = tables["brandflow"]["scanned"]
+        res["summary"]["macro_calls"] = tables["brandflow"]["macro_calls"]
+        res["summary"]["lifetime_params"] = {a["name"]: a["params"] for a in tables["brandflow"]["adts"]}
     else:
         entries = len(tables["callgraph"]["fns"])
         res["summary"]["edges"] = len(tables["callgraph"]["edges"])
@@ -552,7 +610,7 @@ def run(prop, tier, seed):
     # 3/4. probes ------------------------------------------------------------------------------
     demos = {}
     rows = []
-    if prop in ("C13", "C19"):
+    if prop in ("C12", "C13", "C19"):
         t1 = time.time()
         ok, rlib, deps, log = build_rlib(cfg)
         timings["build_rlib"] = round(time.time() - t1, 2)
@@ -564,12 +622,17 @@ def run(prop, tier, seed):
             missing = []
             if prop == "C13":
                 probes = gen.c13_probes(tables["derefwrite"])
+            elif prop == "C12":
+                probes, missing = _load_gen("gen_brandflow.py").c12_probes(tables["brandflow"])
             else:
                 probes, missing = gen.c19_probes(tables["sig"])
             t1 = time.time()
             results = run_probes(cfg, probes, rlib, deps)
             timings["probes"] = round(time.time() - t1, 2)
-            demos, corr, rows = judge_probes(prop, probes, results, set(violating))
+            if prop == "C12":
+                demos, corr, rows = judge_c12(probes, results, set(violating))
+            else:
+                demos, corr, rows = judge_probes(prop, probes, results, set(violating))
             res["evaluations"] += len(probes)
             res["programs"] += len(probes)
             res["disagreements_checked"] += len(probes)
@@ -633,6 +696,22 @@ def run(prop, tier, seed):
             elif prop == "C19":
                 ent = next((s for s in tables["sig"]["sigs"] if ("sig: " + s["name"]) == v), None)
                 lines = [f"signature: {ent['decl'] if ent else v}", f"entry: {json.dumps(ent)}"]
+            elif prop == "C12":
+                ent = next((e for e in tables["brandflow"]["entries"] if ("flow: " + e["name"]) == v), None)
+                lines = [f"offending signature: {ent['decl'] if ent else v}", f"table entry: {json.dumps(ent)}"]
+                if ent:
+                    lines.append(f"result brands {ent['out_brands']} / result reference lifetimes {ent['out_refs']} are not all taken from the inputs "
+                                 f"(input brands {ent['in_brands']}, input lifetimes {ent['in_lts']}); caller-chosen: {ent['free']}; "
+                                 f"reachable from safe code: {'via macro ' + ', '.join(m + '!' for m in ent['via_macros']) if ent['is_unsafe'] else 'safe fn'}")
+                lines.append("no client-program template exists for this entry (or rustc rejected every escape shape tried): no failing program is exhibited")
+        if prop == "C12":
+            # the offending signature is named first; the body of the replay is the client program
+            ent = next((e for e in tables["brandflow"]["entries"] if ("flow: " + e["name"]) == v), None)
+            if ent and d:
+                header.insert(2, f"offending signature: {ent['decl']}")
+                header.insert(3, f"caller-chosen lifetimes of the result: {ent['free']} (result brands {ent['out_brands']}, input brands {ent['in_brands']})")
+            problem(f"{prop}-{key}", text, bool(d), header, lines, key=key)
+            continue
         problem(f"{prop}-{key}", text, bool(d) or not _is_tie_only(v), header, lines, key=key)
 
     # thorough: per-feature tables for C16 ------------------------------------------------------
